@@ -141,7 +141,8 @@ def explore_case(part, item):
         part.violation(f"{kinds}:{K.method_of(cfg)}:w{cfg['world']}:explore",
                        f'{name}: {viols[0][1]}',
                        {'cfg': cfg, 'mode': 'explore', 'delivery': delivery,
-                        'bound': bound, 'all': [t for _, t in viols[:4]]})
+                        'bound': bound, 'all': [t for _, t in viols[:4]],
+                        'schedule_list': DC.LAST_SCHEDULE[0]})
 
 
 def configs(thorough, seed):
@@ -360,7 +361,17 @@ def main(run: core.Run):
 def replay(run, data):
     d = data['detail']
     part = core.Part()
-    if d.get('mode') == 'explore':
+    if d.get('mode') == 'explore' and d.get('schedule_list'):
+        fine = ('kfac/distributed.py', 'kfac/layers/base.py',
+                'kfac/layers/eigen.py', 'kfac/layers/inverse.py',
+                'kfac/base_preconditioner.py') if d['delivery'] == 'fine' \
+            else ()
+        vs = DC.replay_schedule(d['cfg'], d['schedule_list'], d['delivery'],
+                                oracle_for(d['cfg']), fine_files=fine)
+        part.count('executions')
+        if vs:
+            part.violation(f'replay:{vs[0][0]}', vs[0][1], d)
+    elif d.get('mode') == 'explore':
         explore_case(part, (d['cfg'], d['delivery'], d['bound']))
     elif d.get('mode') == 'accum':
         accum_case(part, d['cfg'])
